@@ -162,6 +162,23 @@ func (lv *LeafVariants) GetHighestPrecedenceValue() int32 {
 	return result
 }
 
+// GetHighestPrecedenceValueOld returns the highest precedence value (lowest priority value) among the entries that
+// existed before the actual transaction: new entries do not count, entries flagged for deletion do.
+func (lv *LeafVariants) GetHighestPrecedenceValueOld() int32 {
+	lv.lesMutex.RLock()
+	defer lv.lesMutex.RUnlock()
+	result := int32(math.MaxInt32)
+	for _, e := range lv.les {
+		if e.GetNewFlag() || e.Owner() == DefaultsIntentName {
+			continue
+		}
+		if p := e.PriorityBeforeTransaction(); p < result {
+			result = p
+		}
+	}
+	return result
+}
+
 // checkReturnDefault checks if defaults are allowed and if the given LeafEntry is owned by default
 func checkNotDefaultAllowedButIsDefaultOwner(le *LeafEntry, includeDefaults bool) bool {
 	return !includeDefaults && le.Update.Owner() == DefaultsIntentName
